@@ -213,6 +213,15 @@ func (t *ttlAnalysis) checked(fn *ssa.Function, at ssa.Instruction, key ssa.Valu
 			}
 		}
 	}
+	// a whole key slice handed to a helper that observes its elements
+	if _, isSl := key.Type().Underlying().(*types.Slice); isSl {
+		if t.sliceElemsChecked(fn, sliceBase(key)) {
+			return true, "a key slice built only from CheckTTL-ed keys"
+		}
+		if t.coveredByRangeLoop(fn, at, sliceBase(key)) {
+			return true, "a preceding range loop over the whole key slice calls CheckTTL on every element"
+		}
+	}
 	return false, "no CheckTTL on the same key dominates this observation (facts: " + strings.Join(s.Sorted(), " ") + ")"
 }
 
